@@ -104,7 +104,12 @@ def L1(kind, state, shape, ring=1, tiers=('quick', 'thorough'), timeout=900, pro
         defs = ['JOB_USTATE=CAT_UNSOLICITED_STATE_' + state]
         enforce, replace = 'unsolicited_events_service', list(LEAF_REPLACE)
         jid = 'L1u.%s.%s.N%d' % (state, shape, ring)
-    return {'id': jid, 'props': list(props or L1_PROPS), 'harness': 'l1_step.c', 'enforce': enforce, 'replace': replace, 'loop_contracts': False,
+    base = list(props or L1_PROPS)
+    if props is None:
+        # steps whose clauses carry the argument-storing and round-trip properties, and the event machine for the queue property
+        extra = {'PARSE_COMMAND_ARGS': ['C04', 'C05'], 'PARSE_WRITE_ARGS': ['C04', 'C05', 'C07'], 'FORMAT_READ_ARGS': ['C07']}.get(state, []) if kind == 'at' else ['C13']
+        base += [p for p in extra if p not in base]
+    return {'id': jid, 'props': base, 'harness': 'l1_step.c', 'enforce': enforce, 'replace': replace, 'loop_contracts': False,
             'defines': defs + sh['defines'] + ['CAT_UNSOLICITED_CMD_BUFFER_SIZE=%d' % ring], 'expect': ['postcondition'], 'label': 'shape-bounded',
             'timeout': timeout, 'replay': None, 'cbmc_flags': ['--unwind', str(sh['unwind']), '--unwinding-assertions', '--object-bits', '10'], 'tiers': list(tiers),
             'shape': sh['text'] + SHAPE_TEXT % ring}
